@@ -263,13 +263,13 @@ func ruleSnapshotRollback(c *Ctx) {
 						return g != nil && os.getters[g] == sl && instrBefore(gc, first.(ssa.Instruction))
 					}, 4)
 				}
-				failed := &failEv{okEv: newOkEv(fn, "Persist failed", func(x *ssa.Call) bool { return x == pcall })}
+				failed := newSettledEv(fn, "Persist", func(x *ssa.Call) bool { return x == pcall })
 				restored := &calledEv{name: "restore(" + sl.Name() + " := snapshot)", match: isRestore, reset: func(x ssa.Instruction) bool { return x == ssa.Instruction(pcall) }}
 				construct := fmt.Sprintf("slot %s in %s", sl.Name(), fnName(fn))
 				if len(pcalls) > 1 {
 					construct += fmt.Sprintf(" (Persist @%s)", P.instrPos(pcall))
 				}
-				_, fails := requireAt(P, fn, 0, []Ev{failed, restored}, func(x ssa.Instruction) bool { _, ok := x.(*ssa.Return); return ok }, func(h []bool) bool { return !h[0] || h[1] })
+				_, fails := requireAt(P, fn, 0, []Ev{failed, restored}, func(x ssa.Instruction) bool { _, ok := x.(*ssa.Return); return ok }, anyOf)
 				c.Check(len(fails) == 0, rule, construct, "if Persist fails, the slot is set back to the snapshot read before the first mutation (whole-value restore, not an inverse operation) before the error is returned", P.instrPos(first), failDesc(fails))
 			}
 		}
